@@ -44,9 +44,11 @@ def generate(rng, tier):
             # neighbouring pair is in order, the section as a whole is not)
             nfd = len(fdes)
             order = (list(range(nfd // 2, nfd)) + list(range(nfd // 2))) if (idx + j) % 3 == 0 and nfd >= 3 else None
+            # every other image does not state where its .eh_frame lies (absolute pointers need no such address)
+            noaddr = pres != "debug" and not mixed and (idx // 2 + j) % 2 == 0
             s.module_dwarf("M%d" % j, ba, ba + span, ba, base_svma, pres, fdes, rng, shuffle=True, order=order,
-                           n_cies=(2 + idx % 2) if mixed else rng.range(1, 3), pcrel=(pres != "debug" and rng.chance(1, 2)),
-                           mixed=mixed, macho_names=(idx % 5 == 3),
+                           n_cies=(2 + idx % 2) if mixed else rng.range(1, 3), pcrel=(pres != "debug" and rng.chance(1, 2) and not noaddr),
+                           mixed=mixed, macho_names=(idx % 5 == 3), eh_noaddr=noaddr,
                            hdr_enc=rng.choice(["abs8", "gnu"]) if base_svma < 0x80000000 else "abs8")
             bases.append(ba)
         s.mem("S", [(0x7000 + 8 * i, 0x50000 + i) for i in range(250)] + [(0x7800, 0x7900), (0x7808, 0x66666)])
